@@ -2,6 +2,7 @@ import UralModel.Model.Twitter
 import UralModel.Model.Instagram
 import UralModel.Model.Telegram
 import UralModel.Lemmas.C19Small
+import UralModel.Lemmas.C19SmallHost
 /-!
 # C19, part `small` — twitter / instagram / telegram parsers
 -/
@@ -308,6 +309,110 @@ theorem twitter_record_wellformed (url : Str) (rec : Record)
   split at h
   · cases h
   · exact runSteps_result loopBody NonEmptyFields loopBody_nonempty _ url rec h
+
+/-! ### no field carries a newline or a slash
+
+`is_*`-style validators built on `^…$` admit one trailing `"\n"` (`PlusWord`), and a record field
+holding a `/` or a newline would break the URL it is printed into.  Neither can happen: every
+field is (the normalisation of) a segment of `pathsplit(safe_urlsplit(url).path)` — a piece of
+`split("/")` of a string from which `urlsplit` removed TAB / CR / LF (`Seg`,
+`Lemmas/C19SmallHost.lean`). -/
+
+/-- every field of the record is a `Seg`: no `"\n"`, no `"/"` -/
+def SegFields : Record → Prop
+  | .tweet n i => Seg n ∧ Seg i
+  | .user n => Seg n
+  | .list i => Seg i
+
+theorem normalize_screen_name_seg (u n : Str) (hu : Seg u) (h : normalize_screen_name u = some n) :
+    Seg n := by
+  unfold normalize_screen_name at h
+  split at h
+  · cases h
+  · simp only [] at h
+    have hv : Seg (if startsWith u ['@'] = true then List.drop 1 u else u) := by
+      split
+      · exact hu.drop 1
+      · exact hu
+    generalize (if startsWith u ['@'] = true then List.drop 1 u else u) = v at h hv
+    split at h
+    · cases h
+    · injection h with h
+      rw [← h]
+      exact hv.lower
+
+theorem listRoute_seg (path : List Str) (hp : ∀ s ∈ path, Seg s) (rec : Record)
+    (h : listRoute path = .ok (some rec)) : SegFields rec := by
+  unfold listRoute at h
+  split at h
+  · rename_i h3
+    match path, h3 with
+    | [a, b, c], _ =>
+      simp only [getIdx, List.getElem?_cons_zero, List.getElem?_cons_succ, bind, Except.bind, pure,
+        Except.pure] at h
+      split at h
+      · split at h
+        · injection h with h
+          injection h with h
+          rw [← h]
+          exact hp c (by simp)
+        · cases h
+      · cases h
+  · cases h
+
+theorem twitterRoute_seg (path : List Str) (fragment : Str) (hp : ∀ s ∈ path, Seg s) (rec : Record)
+    (h : twitterRoute path fragment = .ok (.done (some rec))) : SegFields rec := by
+  unfold twitterRoute at h
+  split at h
+  · rename_i hne
+    cases path with
+    | nil => exact absurd rfl hne
+    | cons p0 rest =>
+      simp only [getIdx, List.getElem?_cons_zero, bind, Except.bind] at h
+      split at h
+      · obtain ⟨r, hr⟩ := listRoute_total (p0 :: rest)
+        rw [hr] at h
+        simp only [pure, Except.pure] at h
+        injection h with h
+        injection h with h
+        rw [h] at hr
+        exact listRoute_seg _ hp rec hr
+      · rename_i name hn
+        have hname := normalize_screen_name_seg _ _ (hp p0 (by simp)) hn
+        split at h
+        · rename_i h3
+          match rest, h3 with
+          | [b, c], _ =>
+            simp only [List.getElem?_cons_succ, List.getElem?_cons_zero, pure, Except.pure] at h
+            injection h with h
+            injection h with h
+            injection h with h
+            rw [← h]
+            exact ⟨hname, hp c (by simp)⟩
+        · simp only [pure, Except.pure] at h
+          injection h with h
+          injection h with h
+          injection h with h
+          rw [← h]
+          exact hname
+  · split at h <;> cases h
+
+theorem loopBody_seg (url : Str) (rec : Record)
+    (h : loopBody url = .ok (.done (some rec))) : SegFields rec := by
+  unfold loopBody at h
+  split at h
+  · cases h
+  · rename_i parsed hs
+    exact twitterRoute_seg _ _ (pathsplit_segs url parsed hs) rec h
+
+/-- **no field of a record `parse_twitter_url` returns holds a newline or a slash** — screen
+names, tweet ids and list ids, for every string (fragment-routed `#!` urls included) -/
+theorem twitter_record_no_newline_slash (url : Str) (rec : Record)
+    (h : parse_twitter_url url = .ok (some rec)) : SegFields rec := by
+  unfold parse_twitter_url at h
+  split at h
+  · cases h
+  · exact runSteps_result loopBody SegFields loopBody_seg _ url rec h
 
 /-! ### non-vacuity -/
 
@@ -743,6 +848,84 @@ theorem convert_telegram_only_documented_error (url : Str) :
         cases h
       · cases h
 
+/-! ### "foreign url", independently of the model's guard
+
+`Foreign url` above is the guard of the model of `convert_telegram_url_to_public` read back, so
+"raises exactly on foreign urls" is that definition unfolded.  The independent notion: the
+pattern `TELEGRAM_DOMAINS_RE` that `is_telegram_url` searches in the parsed hostname denotes
+whole-label membership in `telegram.org`, `telegram.me`, `t.me` (C18's `site_search_spec_nl`,
+through the table obligation `telegram_domains_table_ok` on the copy of the pattern regenerated
+for this property). -/
+
+/-- table obligation: the regenerated `TELEGRAM_DOMAINS_RE` of telegram.py is `(?:^|\.) body $`
+and the words of its body denote exactly C18's regenerated family -/
+theorem telegram_domains_table_ok :
+    Ural.Sites.SiteTableOK Ural.Gen.C19Small.TELEGRAM_DOMAINS_RE Ural.Gen.SitesTables.TELEGRAM_DOMAINS = true := by decide
+
+/-- table obligation: that family is `telegram.org`, `telegram.me`, `t.me` -/
+theorem telegram_family :
+    Ural.Gen.SitesTables.TELEGRAM_DOMAINS =
+      ["telegram.org".toList.map some, "telegram.me".toList.map some, "t.me".toList.map some] := by
+  decide
+
+/-- the hostname equals `telegram.org`, `telegram.me` or `t.me`, or ends with `.` + one of them -/
+def TelegramHost (h : Str) : Prop :=
+  Ural.Sites.HostUnder "telegram.org".toList h ∨ Ural.Sites.HostUnder "telegram.me".toList h ∨
+    Ural.Sites.HostUnder "t.me".toList h
+
+/-- **`is_telegram_url`, independently**: true exactly when `safe_urlsplit(url).hostname` exists
+and, lower-cased, is at or under (whole labels) `telegram.org` / `telegram.me` / `t.me` -/
+theorem is_telegram_url_iff (url : Str) :
+    is_telegram_url url = true ↔ ∃ h, get_hostname url = some h ∧ TelegramHost (lower h) := by
+  unfold is_telegram_url
+  rw [hostMatches_site_iff telegram_domains_table_ok url, telegram_family]
+  constructor
+  · rintro ⟨h, hh, p, hp, hu⟩
+    refine ⟨h, hh, ?_⟩
+    simp only [List.mem_cons, List.not_mem_nil, or_false] at hp
+    rcases hp with rfl | rfl | rfl
+    · exact Or.inl ((Ural.Sites.underPattern_literal_iff _ _).1 hu)
+    · exact Or.inr (Or.inl ((Ural.Sites.underPattern_literal_iff _ _).1 hu))
+    · exact Or.inr (Or.inr ((Ural.Sites.underPattern_literal_iff _ _).1 hu))
+  · rintro ⟨h, hh, h1 | h1 | h1⟩
+    · exact ⟨h, hh, _, by simp, (Ural.Sites.underPattern_literal_iff _ _).2 h1⟩
+    · exact ⟨h, hh, _, by simp, (Ural.Sites.underPattern_literal_iff _ _).2 h1⟩
+    · exact ⟨h, hh, _, by simp, (Ural.Sites.underPattern_literal_iff _ _).2 h1⟩
+
+/-- "foreign url", stated without the model's guard: `urlsplit` refuses the protocol-equipped
+url, or the netloc it reads — taken as a url, which is what `is_telegram_url(splitted.netloc)`
+does — has no hostname at or under `telegram.org` / `telegram.me` / `t.me` -/
+def ForeignSpec (url : Str) : Prop :=
+  ∀ sp, urlsplit (ensure_protocol url "http".toList) = some sp →
+    ∀ h, get_hostname sp.netloc = some h → ¬ TelegramHost (lower h)
+
+theorem foreign_iff (url : Str) : Foreign url ↔ ForeignSpec url := by
+  unfold Foreign ForeignSpec
+  cases hs : urlsplit (ensure_protocol url "http".toList) with
+  | none => simp
+  | some sp =>
+    simp only [Option.some.injEq, forall_eq']
+    rw [← Bool.not_eq_true, is_telegram_url_iff]
+    constructor
+    · intro hn h hh ht; exact hn ⟨h, hh, ht⟩
+    · rintro hn ⟨h, hh, ht⟩; exact hn h hh ht
+
+/-- **`convert_telegram_url_to_public` raises only its documented `TypeError`, and exactly on
+urls that are foreign in the independent sense** -/
+theorem convert_telegram_error_iff_foreign (url : Str) :
+    (∀ e, convert_telegram_url_to_public url = .error e → e = .typeError) ∧
+    (convert_telegram_url_to_public url = .error .typeError ↔ ForeignSpec url) := by
+  obtain ⟨h1, h2⟩ := convert_telegram_only_documented_error url
+  refine ⟨fun e he => (h1 e he).1, ?_⟩
+  rw [← foreign_iff]
+  exact ⟨fun he => (h1 _ he).2, h2⟩
+
+/-- non-vacuity: both sides of `is_telegram_url_iff` on look-alikes -/
+example : is_telegram_url "http://u@A.T.ME:80/x".toList = true ∧
+    is_telegram_url "http://xt.me/".toList = false ∧
+    is_telegram_url "http://t.me.evil.fr/".toList = false ∧
+    get_hostname "http://u@A.T.ME:80/x".toList = some "a.t.me".toList := by decide +kernel
+
 /-! ### what the validator means, well-formed records -/
 
 /-- **`is_telegram_message_id`** accepts exactly the non-empty words over the class of
@@ -885,6 +1068,142 @@ theorem plainRoute_nonempty (path : List Str) (he : Ends path) (rec : Record)
       · split at h
         · omega
         · cases h
+
+/-- every field of the record is a `Seg`: no `"\n"`, no `"/"` -/
+def SegFields : Record → Prop
+  | .message n i => Seg n ∧ Seg i
+  | .group i => Seg i
+  | .channel n => Seg n
+
+theorem sRoute_seg (path : List Str) (hp : ∀ s ∈ path, Seg s) (rec : Record)
+    (h : sRoute path = .ok (some rec)) : SegFields rec := by
+  unfold sRoute at h
+  split at h
+  · cases h
+  · rename_i hl
+    match path, hl with
+    | [], hl => exact absurd (by simp) hl
+    | [a], hl => exact absurd (by simp) hl
+    | [a, b], _ =>
+      simp only [getIdx, List.getElem?_cons_zero, List.getElem?_cons_succ, bind, Except.bind,
+        List.length_cons, List.length_nil, pure, Except.pure] at h
+      split at h
+      · cases h
+      · simp only [Nat.zero_add, Nat.reduceAdd, Nat.reduceEqDiff, if_false, if_true] at h
+        injection h with h
+        injection h with h
+        rw [← h]
+        exact hp b (by simp)
+    | [a, b, c], _ =>
+      simp only [getIdx, List.getElem?_cons_zero, List.getElem?_cons_succ, bind, Except.bind,
+        List.length_cons, List.length_nil, pure, Except.pure] at h
+      split at h
+      · simp only [if_true] at h
+        injection h with h
+        injection h with h
+        rw [← h]
+        exact hp c (by simp)
+      · simp only [Nat.zero_add, Nat.reduceAdd, if_true] at h
+        split at h
+        · split at h
+          · injection h with h
+            injection h with h
+            rw [← h]
+            exact ⟨hp b (by simp), hp c (by simp)⟩
+          · cases h
+        · cases h
+    | a :: b :: c :: d :: rest, _ =>
+      simp only [getIdx, List.getElem?_cons_zero, List.getElem?_cons_succ, bind, Except.bind,
+        List.length_cons, pure, Except.pure] at h
+      split at h
+      · split at h
+        · omega
+        · cases h
+      · split at h
+        · omega
+        · split at h
+          · omega
+          · cases h
+
+theorem plainRoute_seg (path : List Str) (hp : ∀ s ∈ path, Seg s) (rec : Record)
+    (h : plainRoute path = .ok (some rec)) : SegFields rec := by
+  match path with
+  | [] => simp [plainRoute, getIdx, bind, Except.bind] at h
+  | [a] =>
+    simp only [plainRoute, getIdx, List.getElem?_cons_zero, bind, Except.bind, List.length_cons,
+      List.length_nil, pure, Except.pure] at h
+    split at h
+    · simp at h
+    · simp only [Nat.zero_add, Nat.reduceEqDiff, if_false, if_true] at h
+      injection h with h
+      injection h with h
+      rw [← h]
+      exact hp a (by simp)
+  | [a, b] =>
+    simp only [plainRoute, getIdx, List.getElem?_cons_zero, List.getElem?_cons_succ, bind, Except.bind,
+      List.length_cons, List.length_nil, pure, Except.pure] at h
+    split at h
+    · simp only [Nat.zero_add, Nat.reduceAdd, Nat.reduceEqDiff, if_false, if_true] at h
+      injection h with h
+      injection h with h
+      rw [← h]
+      exact hp b (by simp)
+    · simp only [Nat.zero_add, Nat.reduceAdd, if_true] at h
+      split at h
+      · injection h with h
+        injection h with h
+        rw [← h]
+        exact ⟨hp a (by simp), hp b (by simp)⟩
+      · cases h
+  | [a, b, c] =>
+    simp only [plainRoute, getIdx, List.getElem?_cons_zero, List.getElem?_cons_succ, bind, Except.bind,
+      List.length_cons, List.length_nil, pure, Except.pure] at h
+    split at h
+    · simp only [Nat.zero_add, Nat.reduceAdd, if_true] at h
+      injection h with h
+      injection h with h
+      rw [← h]
+      exact hp c (by simp)
+    · simp at h
+  | a :: b :: c :: d :: rest =>
+    simp only [plainRoute, getIdx, List.getElem?_cons_zero, bind, Except.bind, List.length_cons,
+      pure, Except.pure] at h
+    split at h
+    · split at h
+      · omega
+      · split at h
+        · omega
+        · cases h
+    · split at h
+      · omega
+      · split at h
+        · omega
+        · cases h
+
+/-- **no field of a record `parse_telegram_url` returns holds a newline or a slash** — channel
+names, message ids (although `is_telegram_message_id`, being `^\d+$`, would admit a trailing
+`"\n"`) and group ids, for every string -/
+theorem telegram_record_no_newline_slash (url : Str) (rec : Record)
+    (h : parse_telegram_url url = .ok (some rec)) : SegFields rec := by
+  unfold parse_telegram_url at h
+  split at h
+  · cases h
+  · split at h
+    · cases h
+    · rename_i parsed hps
+      have hp := pathsplit_segs url parsed hps
+      unfold telegramRoute at h
+      split at h
+      · rename_i hne
+        cases hpath : pathsplit parsed.path with
+        | nil => exact absurd hpath hne
+        | cons p0 rest =>
+          rw [hpath] at h hp
+          simp only [getIdx, List.getElem?_cons_zero, bind, Except.bind] at h
+          split at h
+          · exact sRoute_seg _ hp rec h
+          · exact plainRoute_seg _ hp rec h
+      · cases h
 
 /-- **every record `parse_telegram_url` returns is well formed**: no channel name, message id
 or group id is the empty string — for every string -/
